@@ -27,8 +27,49 @@ type edit struct {
 
 var skipFuncs = map[string]bool{"String": true, "Error": true, "Format": true, "GoString": true}
 
+// neutral: with `-neutral` as first argument the tool lists behaviour-preserving single-site rewrites instead of mutants
+// (operand order of a comparison, an if/else flipped under the negated condition, len(x)==0 spelled len(x)<1, i++ as
+// i+=1, `a && b` as nested ifs, `a || b` as two ifs where the body leaves, x+1 as 1+x): every check must stay silent on each.
+var neutral bool
+
+func hasCall(e ast.Expr) bool {
+	found := false
+	ast.Inspect(e, func(n ast.Node) bool {
+		switch x := n.(type) {
+		case *ast.CallExpr:
+			if id, ok := x.Fun.(*ast.Ident); ok && (id.Name == "len" || id.Name == "cap" || id.Name == "int" || id.Name == "byte" || id.Name == "uint32" || id.Name == "uint8" || id.Name == "uint16" || id.Name == "uint64" || id.Name == "string") {
+				return true // builtins and conversions without effect
+			}
+			found = true
+		case *ast.UnaryExpr:
+			if x.Op == token.ARROW {
+				found = true
+			}
+		}
+		return !found
+	})
+	return found
+}
+
+func leaves(b *ast.BlockStmt) bool {
+	if len(b.List) == 0 {
+		return false
+	}
+	switch x := b.List[len(b.List)-1].(type) {
+	case *ast.ReturnStmt:
+		return true
+	case *ast.BranchStmt:
+		return x.Tok == token.BREAK || x.Tok == token.CONTINUE
+	}
+	return false
+}
+
 func main() {
 	root := os.Args[1]
+	if root == "-neutral" {
+		neutral = true
+		root = os.Args[2]
+	}
 	enc := json.NewEncoder(os.Stdout)
 	filepath.Walk(root, func(path string, info os.FileInfo, err error) error {
 		if err != nil {
@@ -71,6 +112,61 @@ func main() {
 			}
 			emit := func(op string, pos, end token.Pos, repl string) {
 				enc.Encode(edit{File: rel, Line: fset.Position(pos).Line, Func: name, Op: op, Start: off(pos), End: off(end), Old: string(src[off(pos):off(end)]), New: repl})
+			}
+			text := func(n ast.Node) string { return string(src[off(n.Pos()):off(n.End())]) }
+			if neutral {
+				ast.Inspect(fd.Body, func(n ast.Node) bool {
+					switch x := n.(type) {
+					case *ast.BinaryExpr:
+						mirror := map[token.Token]string{token.LSS: ">", token.LEQ: ">=", token.GTR: "<", token.GEQ: "<=", token.EQL: "==", token.NEQ: "!="}
+						if m, ok := mirror[x.Op]; ok && !hasCall(x.X) && !hasCall(x.Y) {
+							emit("cmp-swap", x.Pos(), x.End(), text(x.Y)+" "+m+" "+text(x.X))
+						}
+						// len(x) == 0 / > 0 / != 0
+						if call, ok := x.X.(*ast.CallExpr); ok {
+							if id, ok := call.Fun.(*ast.Ident); ok && id.Name == "len" {
+								if lit, ok := x.Y.(*ast.BasicLit); ok && lit.Value == "0" {
+									switch x.Op {
+									case token.EQL:
+										emit("len0", x.Pos(), x.End(), text(x.X)+" < 1")
+									case token.GTR:
+										emit("len0", x.Pos(), x.End(), text(x.X)+" >= 1")
+									case token.NEQ:
+										emit("len0", x.Pos(), x.End(), text(x.X)+" > 0")
+									}
+								}
+							}
+						}
+						if x.Op == token.ADD {
+							if lit, ok := x.Y.(*ast.BasicLit); ok && lit.Kind == token.INT && !hasCall(x.X) {
+								emit("add-swap", x.Pos(), x.End(), text(x.Y)+" + "+text(x.X))
+							}
+						}
+					case *ast.IncDecStmt:
+						if x.Tok == token.INC {
+							emit("incr", x.Pos(), x.End(), text(x.X)+" += 1")
+						} else {
+							emit("incr", x.Pos(), x.End(), text(x.X)+" -= 1")
+						}
+					case *ast.IfStmt:
+						if x.Init != nil {
+							return true
+						}
+						if els, ok := x.Else.(*ast.BlockStmt); ok {
+							emit("if-flip", x.Pos(), x.End(), "if !("+text(x.Cond)+") "+text(els)+" else "+text(x.Body))
+						}
+						if be, ok := x.Cond.(*ast.BinaryExpr); ok && x.Else == nil {
+							if be.Op == token.LAND {
+								emit("and-nest", x.Pos(), x.End(), "if "+text(be.X)+" { if "+text(be.Y)+" "+text(x.Body)+" }")
+							}
+							if be.Op == token.LOR && leaves(x.Body) {
+								emit("or-split", x.Pos(), x.End(), "if "+text(be.X)+" "+text(x.Body)+"\n if "+text(be.Y)+" "+text(x.Body))
+							}
+						}
+					}
+					return true
+				})
+				continue
 			}
 			ast.Inspect(fd.Body, func(n ast.Node) bool {
 				switch x := n.(type) {
